@@ -57,11 +57,15 @@ CaseClauses(ln) ==
       expected == MatrixFlat(ln.terms, n, ln.F, ln.jw)      \* 2^F * Matrix(terms); fermionic ladder ops iff jw
       asfound  == AsFoundFlat(ln)
       hasconst == ln.fok /\ \E t \in 1..Len(ln.fterms) : Len(ln.fterms[t].ops) = 0
-      \* a failing observation that is exactly the known deviation is attributed to the specific clause
-      Blame(kind, obs, want, known) ==
+      \* the operator before the last add_term call (which cancelled an existing raw term exactly)
+      stale    == MatrixFlat(SubSeq(ln.terms, 1, Len(ln.terms) - 1), n, ln.F, ln.jw)
+      \* a failing observation that is exactly a known deviation is attributed to the specific clause
+      Blame(kind, obs, want, known, old) ==
         IF obs.exc = "" /\ obs.grid /\ obs.mat = want THEN <<ClauseOfKind(kind), TRUE>>
         ELSE IF ln.samesite /\ obs.exc = "" /\ obs.grid /\ FlatScale(Pow2(AsFound!FS), obs.mat) = known
              THEN <<"SameSiteProductScalar", FALSE>>
+        ELSE IF ln.cancel_last /\ obs.exc = "" /\ obs.grid /\ obs.mat = old
+             THEN <<"StaleAfterCancellingTerm", FALSE>>
              ELSE <<ClauseOfKind(kind), FALSE>>
       emptyop  == ln.fok /\ Len(ln.fterms) = 0
       \* coupling function (not in the statement's list of representations: judged leniently): the
@@ -76,6 +80,9 @@ CaseClauses(ln) ==
                 /\ (\/ FlatScale(Pow2(AsFound!FS), rep.mat) = asfound
                     \/ FlatScale(Pow2(AsFound!FS), rep.mat) = TransposeFlat(asfound, D))
              THEN <<"SameSiteProductScalar", FALSE>>
+        ELSE IF ln.cancel_last /\ rep.exc = "" /\ rep.grid
+                /\ (rep.mat = stale \/ rep.mat = TransposeFlat(stale, D))
+             THEN <<"StaleAfterCancellingTerm", FALSE>>
              ELSE <<"CouplingEq", FALSE>>
       RepClause(rep) ==
         IF rep.kind = "local" /\ rep.exc # "" /\ hasconst
@@ -83,13 +90,15 @@ CaseClauses(ln) ==
         ELSE IF rep.kind \in {"ikron", "mpo"} /\ rep.exc # "" /\ emptyop
         THEN <<ClauseOfKind(rep.kind), TRUE>>   \* the zero operator has no term to build from: rejection
         ELSE IF rep.kind = "coupling" THEN Coupling(rep)
-        ELSE Blame(rep.kind, rep, expected, asfound)
+        ELSE Blame(rep.kind, rep, expected, asfound, stale)
       fh  == MaxHalf(ln.fterms)
       fmat == MatrixFlat(ln.fterms, n, fh, FALSE)           \* final terms are plain (spin) operators
       FinalDenote ==
         IF ln.fok /\ fmat = FlatScale(Pow2(fh), expected) THEN <<"FinalTermsDenote", TRUE>>
         ELSE IF ln.fok /\ ln.samesite /\ FlatScale(Pow2(AsFound!FS), fmat) = FlatScale(Pow2(fh), asfound)
              THEN <<"SameSiteProductScalar", FALSE>>
+        ELSE IF ln.fok /\ ln.cancel_last /\ fmat = FlatScale(Pow2(fh), stale)
+             THEN <<"StaleAfterCancellingTerm", FALSE>>
              ELSE <<"FinalTermsDenote", FALSE>>
       PauliOnly == ln.pd # 0 =>
                      /\ ln.fok
@@ -102,13 +111,14 @@ CaseClauses(ln) ==
             applies == wf /\ Conserves(expected, n, sc.sym, sc.regsA)
             want    == SubFlat(expected, D, sc.basis)
             known   == SubFlat(asfound, D, sc.basis)
+            old     == SubFlat(stale, D, sc.basis)
             \* a term that individually leaves the sector may be rejected with an exception
             leaky   == ln.fok /\ \E t \in 1..Len(ln.fterms) : ~TermKeepsCharge(ln.fterms[t].ops, sc.sym, sc.regsA)
             One(rep) ==
               IF ~(applies /\ ranking) THEN <<"Sector" \o ClauseOfKind(rep.kind), TRUE>>   \* out of the statement's domain
               ELSE IF rep.exc # "" /\ leaky THEN <<"Sector" \o ClauseOfKind(rep.kind), TRUE>>
-              ELSE LET b == Blame(rep.kind, rep, want, known)
-                   IN  <<IF b[1] = "SameSiteProductScalar" THEN b[1] ELSE "Sector" \o b[1], b[2]>>
+              ELSE LET b == Blame(rep.kind, rep, want, known, old)
+                   IN  <<IF b[1] \in {"SameSiteProductScalar", "StaleAfterCancellingTerm"} THEN b[1] ELSE "Sector" \o b[1], b[2]>>
         IN  << <<"SectorBasisIsRanking", ranking>> >> \o [i \in 1..Len(sc.reps) |-> One(sc.reps[i])]
   IN  << <<"BuilderAccepts", ln.bexc = "">>,
          <<"OrderingHonoured", ln.order_ok>>,
